@@ -435,6 +435,39 @@ class _Zero(dict):
         return 0
 
 
+def T_references_through_attributes(s):
+    """functions and classes that are only *referenced* (passed on, stored in a variable or a display), reached through a
+    module alias, a module imported from the package, a class held in a variable, a static method of a class"""
+    return {"sub": "from ddsverif_rt import term\n\ndef g():\n    return term('g#%(g)d')\n\n\nclass K(object):\n    def run(self):\n        return term('run#%(run)d')\n\n"
+                   "    @staticmethod\n    def sm():\n        return term('sm#%(sm)d')\n" % s,
+            "main": HEAD + """
+import %(pkg)s.sub as hp
+from %(pkg)s import sub
+from %(pkg)s.sub import K
+
+def r_alias():
+    return hof(hp.g)
+
+def r_mod():
+    return hof(sub.g)
+
+def r_class_var():
+    k = K
+    return k().run()
+
+def r_static():
+    return hof(K.sm)
+
+def r_display():
+    fs = [hp.g, sub.K]
+    return term('d', fs[0](), fs[1]().run())
+
+def f0():
+    return term('f0', dds.keep('/x/r1', r_alias), dds.keep('/x/r2', r_mod), dds.keep('/x/r3', r_class_var),
+                dds.keep('/x/r4', r_static), dds.keep('/x/r5', r_display))
+""" % s}, ["g", "run", "sm"]
+
+
 # explicit refusals of dds (DDSException with one of these codes): the construct is outside the supported subset
 REFUSALS = ("TYPE_NOT_SUPPORTED", "CONSTRUCT_NOT_SUPPORTED", "UNSUPPORTED_CALLABLE_TYPE", "AUTHORIZED_TYPE_NOT_UNDERSTOOD")
 
@@ -442,7 +475,8 @@ TEMPLATES = [T_class_fresh, T_class_object_first, T_inheritance, T_staticmethod,
              T_nested_and_comprehension, T_default_from_variable, T_method_calls_function, T_data_function_chain,
              T_class_attribute_from_variable, T_init_calls_function, T_from_import_variable, T_class_in_submodule,
              T_generator_and_conditional_expression, T_function_as_default_argument, T_reexport_and_relative_imports,
-             T_object_attribute_holds_object, T_variables_of_library_types, T_argument_expressions]
+             T_object_attribute_holds_object, T_variables_of_library_types, T_argument_expressions,
+             T_references_through_attributes]
 # T_module_level_lambda is not in the list: a lambda bound to a module variable is refused with an uncoded DDSException
 # ('Could not find call node'): outside the supported subset (the test-suite marks lambdas under dds.eval as not implemented)
 
